@@ -174,7 +174,7 @@ ARITH = {"add": "Add", "sub": "Sub", "mul": "Mul", "div": "Div", "rem": "Rem"}
 ARITH_ASSIGN = {"add_assign": "Add", "sub_assign": "Sub", "mul_assign": "Mul", "div_assign": "Div"}
 
 OPAQUE_FNS = {
-    "new_display", "new_debug", "new_lower_exp", "new_upper_exp", "new_const", "new_v1", "new_v1_formatted", "from_str", "format", "must_use",
+    "from_str_nonconst", "new_display", "new_debug", "new_lower_exp", "new_upper_exp", "new_const", "new_v1", "new_v1_formatted", "from_str", "format", "must_use",
     "anyhow_kind", "format_err", "msg", "to_string", "to_owned", "format_dbg", "format_eng", "context", "caller", "location",
 }
 
